@@ -16,6 +16,13 @@ PIPELINES = {
         ],
         "min_events": 1000,
     },
+    # signing sessions with remote signers failing on every schedule (C01 fault sequences)
+    "faults": {
+        "variants": ["ring"],
+        "mc": [{"module": "MC_Sign", "workers": 4}],
+        "drivers": [{"name": "sessions", "cmd": ["sign-faults", "{cases}", "{out}", "{tier}"], "cases": "MC_Sign"}],
+        "min_events": 100,
+    },
     "csr": {
         "variants": ["ring"],
         "mc": [{"module": "MC_Csr", "workers": 8}],
@@ -76,7 +83,7 @@ PROPS = {
     "C02": _p("model_checking", ["cert"], ["C02."],
               "cases = elements of the finite set Cases of spec/MC_Cert.tla (presence product + value sweeps); an event is distinct by its abstract args (parameters, key algorithms, loading entry point) without key material; every event is non-trivial in that at least the subject, validity and serial clauses are exercised",
               ops=["Cert"], exhaustive=True),
-    "C09": _p("model_checking", ["time", "cert"], ["C09."],
+    "C09": _p("model_checking", ["time", "cert", "crl"], ["C09."],
               "cases = MC_Time.TimeCases: (boundary day, delta seconds, UTC offset) triples around 1950-01-01, 2050-01-01, 0000-01-01 and 10000-01-01, each expressed under an offset and under the negated offset with different sub-second parts; distinct by abstract args",
               ops=["Cert"], exhaustive=True),
     "C07": _p("model_checking", ["csr"], ["C07."],
@@ -97,17 +104,38 @@ PROPS = {
     "C20": _p("model_checking", ["dn"], ["C20."],
               "cases = every sequence of exactly MaxOps (4 quick / 5 thorough) push/remove operations over 3-4 attribute types x 2 values (MC_Names.Histories), each followed by equality probes against freshly built names (same enumeration, proper prefix, reversed, last value changed) and by issuing a certificate whose subject is decoded; plus random walks of length 200 over 10 types and 6 value kinds; distinct by (operation, arguments) event",
               ops=["DnPush", "DnRemove", "DnEq", "DnEncode"], exhaustive=False),
-    "C04": _p("model_checking", ["cert", "time"], ["C04."], "as C02; every artefact is walked by the strict DER reader", ops=["Cert"], exhaustive=True),
-    "C05": _p("model_checking", ["cert"], ["C05."], "as C02", ops=["Cert"], exhaustive=True),
-    "C01": _p("model_checking", ["cert"], ["C01."], "as C02", ops=["Cert"], exhaustive=True),
+    "C04": _p("model_checking", ["cert", "time", "csr", "crl"], ["C04."],
+              "union of the certificate (MC_Cert), time (MC_Time), CSR (MC_Csr) and CRL (MC_Crl) case sets; every artefact is walked by the strict DER reader from the outermost element into every known extension value; value-dependent forms (key-usage named bits for all 512 sets, INTEGER for every serial class, BasicConstraints, SET OF order of CSR attributes) are recomputed in TLA+",
+              ops=["Cert", "Csr", "Crl"], exhaustive=True),
+    "C05": _p("model_checking", ["cert", "csr", "crl"], ["C05."],
+              "union of the certificate, CSR and CRL case sets; automatic serials are driven through public keys searched so that SHA-256 of the key starts with each of 13 two-octet prefix classes (00 00, 00 80, 7F FF, 80 00, FF FF, ...)",
+              ops=["Cert", "Csr", "Crl"], exhaustive=True),
+    "C01": _p("model_checking", ["faults", "cert", "csr", "crl"], ["C01."],
+              "union of the certificate, CSR and CRL case sets (all algorithms, local keys through eight loading entry points and remote signers) plus MC_Sign: every subset of the five signing calls of a root/intermediate/leaf/CRL/CSR session failing at the first attempt, for several error values",
+              ops=["Cert", "Csr", "Crl"], exhaustive=True),
 }
 
 TRUSTED = ("trusted base: TLC; the TLA+ text; the harness projection (own strict DER/X.509 reader, cross-examined by OpenSSL 3.0 and x509-parser on every artefact); "
            "bounded: exhaustive over the finite abstract domains of the MC_* models, randomised concrete values (texts, keys) inside each abstract class")
 
-MANIFEST_TEXT = {
-    "C02": {"text": "TLC checks on the bounded model MC_Cert that the implementation-shaped view builder satisfies every C02 requirement clause for every abstract parameter set (presence product of all extension-bearing fields, all 512 key-usage sets, path lengths 0..255, prefixes 0..255 for IPv4/IPv6, every SAN/subtree/DN-kind variant, 5x5 key-identifier methods, serial classes), then every one of those cases is replayed into the real rcgen and the decoded certificate is validated by TLC against the same clauses (trace validation).",
-            "design_ref": "DESIGN.md section 6 C02", "note": TRUSTED, "technique": "TLA+ model checking (TLC) + replay of TLC-enumerated cases into rcgen + TLC trace validation of the decoded outputs"},
-}
+def _text(pid):
+    p = PROPS[pid]
+    models = sorted({m["module"] for pl in p["pipelines"] for m in PIPELINES[pl].get("mc", [])})
+    return {
+        "text": ("TLC model-checks the bounded TLA+ model(s) %s (implementation-shaped rules against the requirement clauses / state invariants of the property), "
+                 "the cases those models enumerate are replayed into the real rcgen built from /repo's working tree, and TLC validates every recorded event "
+                 "against the %s clauses of the specification (trace validation; a broken clause is a VIOLATION). Domain: %s") % (", ".join(models), "/".join(p["clauses"]), p["rule"]),
+        "design_ref": "DESIGN.md section 6 (%s)" % pid,
+        "note": TRUSTED,
+        "technique": "explicit TLA+ specification: TLC model checking of bounded models + replay of TLC-enumerated cases into rcgen + TLC trace validation of projected outputs",
+    }
+
+
+class _Texts(dict):
+    def __missing__(self, pid):
+        return _text(pid)
+
+
+MANIFEST_TEXT = _Texts()
 
 NOT_APPLICABLE = {}
